@@ -750,3 +750,17 @@ pub mod verif_hooks_curve {
         c.is_valid(p)
     }
 }
+
+// Verification hooks for the 128-bit single-curve routine (add-only; compiled only with `--cfg yamaquasi_verif`).
+#[cfg(yamaquasi_verif)]
+pub mod verif_hooks_stage2 {
+    use super::*;
+
+    pub fn vh_ecm_curve(c: &Curve, sb: &ecm::SmoothBase, b2: f64) -> Option<(u128, u128)> {
+        ecm_curve(c, sb, b2, Verbosity::Silent)
+    }
+    /// `ecm128::ecm` (all curves of one hard-wired arm).
+    pub fn vh_ecm(n: u128, curves: usize, b1: u64, b2: f64) -> Option<(u128, u128)> {
+        ecm(n, curves, b1, b2, Verbosity::Silent)
+    }
+}
